@@ -153,6 +153,68 @@ Proof.
   apply core_neutral_ret.
 Qed.
 
+Lemma crunk_ret : forall A (a : A) w k, crunk (Ret a) w k = (w, k, a).
+Proof. reflexivity. Qed.
+
+(* programs that change neither the core nor the output channel *)
+Definition quiet {A} (p : cprog A) : Prop :=
+  forall w k, exists w' k' a, crunk p w k = (w', k', a) /\ core3 w' w (wls w) (conts w) /\ out w' = out w.
+Lemma quiet_ret : forall A (a : A), quiet (Ret a).
+Proof. intros A a w k. unfold crunk. simpl. do 3 eexists. split; [reflexivity|]. split; [apply core3_refl|reflexivity]. Qed.
+Lemma quiet_bind : forall A B (p : cprog A) (f : A -> cprog B), quiet p -> (forall a, quiet (f a)) -> quiet (bind p f).
+Proof.
+  intros A B p f Hp Hf w k. rewrite crunk_bind. destruct (Hp w k) as [w1 [k1 [a [H1 [Hc1 Ho1]]]]]. rewrite H1.
+  destruct (Hf a w1 k1) as [w2 [k2 [b [H2 [Hc2 Ho2]]]]]. do 3 eexists. split; [exact H2|].
+  split; [eapply core3_trans; eauto|congruence].
+Qed.
+Lemma quiet_for_all : forall X (l : list X) (body : X -> cprog unit), (forall x, quiet (body x)) -> quiet (for_all l body).
+Proof.
+  induction l as [|x t IH]; intros body Hb; cbn [for_all]; [apply quiet_ret|apply quiet_bind; auto].
+Qed.
+Definition quiet_call (c : call) : Prop := forall w, core3 (fst (exec w c)) w (wls w) (conts w) /\ out (fst (exec w c)) = out w.
+Lemma quiet_doc : forall c, quiet_call c -> quiet (ign (doc c)).
+Proof.
+  intros c Hc w k. unfold ign, doc, call1, crunk. cbn [bind runk]. destruct (Hc w) as [H Ho].
+  destruct (is_faultable c).
+  - destruct k as [[|k]|]; cbn [bind runk].
+    + do 3 eexists. split; [reflexivity|]. split; [apply core3_refl|reflexivity].
+    + destruct (exec w c) as [w' r]. do 3 eexists. split; [reflexivity|]. split; [exact H|exact Ho].
+    + destruct (exec w c) as [w' r]. do 3 eexists. split; [reflexivity|]. split; [exact H|exact Ho].
+  - destruct (exec w c) as [w' r]. do 3 eexists. split; [reflexivity|]. split; [exact H|exact Ho].
+Qed.
+Lemma quiet_delproc : forall n i, quiet_call (SDeleteProcessing n i).
+Proof. intros n i w. cbn [exec fst]. split; [repeat split|reflexivity]. Qed.
+Lemma quiet_commit : forall t e, quiet_call (WCommit t e).
+Proof. intros t e w. cbn [exec fst]. split; [repeat split|reflexivity]. Qed.
+Lemma quiet_commit_processing : forall opi l, quiet (commit_processing opi l).
+Proof.
+  induction l as [|[n [t|]] rest IH]; cbn [commit_processing].
+  - apply quiet_ret.
+  - apply quiet_bind; [apply quiet_doc, quiet_commit|intros; exact IH].
+  - apply quiet_ret.
+Qed.
+
+(* the deferred clean-up: nothing but markers and WAL entries change, then the channel is closed *)
+Lemma defers_spec : forall opi s ms w k,
+  exists w' k', crunk (defers opi s ms) w k = (w', k', ms) /\ core3 w' w (wls w) (conts w) /\ out w' = MClose :: out w.
+Proof.
+  intros opi s ms w k. unfold defers.
+  rewrite crunk_bind.
+  destruct (quiet_for_all _ (cs_plan s) (fun g => ign (doc (SDeleteProcessing (fst g) opi))) (fun g => quiet_doc _ (quiet_delproc _ _)) w k)
+    as [w1 [k1 [[] [H1 [Hc1 Ho1]]]]]. rewrite H1.
+  rewrite crunk_bind. destruct (quiet_commit_processing opi (cs_ptokens s) w1 k1) as [w2 [k2 [[] [H2 [Hc2 Ho2]]]]]. rewrite H2.
+  rewrite crunk_bind.
+  assert (Htail : forall w3 k3, core3 w3 w (wls w) (conts w) -> out w3 = out w ->
+     exists w' k', crunk (send MClose ;;; Ret ms) w3 k3 = (w', k', ms) /\ core3 w' w (wls w) (conts w) /\ out w' = MClose :: out w).
+  { intros w3 k3 Hc3 Ho3. rewrite crunk_bind. destruct (send_core MClose w3 k3) as [w4 [H4 [Hc4 Ho4]]]. rewrite H4.
+    rewrite crunk_ret. exists w4, k3. split; [reflexivity|]. split; [eapply core3_trans; eauto|congruence]. }
+  assert (Hc12 : core3 w2 w (wls w) (conts w)) by (eapply core3_trans; eauto).
+  destruct (cs_rtoken s) as [t|].
+  - destruct (quiet_doc _ (quiet_commit t (EvAlloc [])) w2 k2) as [w3 [k3 [[] [H3 [Hc3 Ho3]]]]]. rewrite H3.
+    apply Htail; [eapply core3_trans; eauto|congruence].
+  - unfold skip. rewrite crunk_ret. apply Htail; [exact Hc12|congruence].
+Qed.
+
 Definition create_hyp (w : world) (opi : nat) (r : res) (plan : option (list (name * nat))) : Prop :=
   (forall n i, fresh w opi n i) /\
   match plan with
@@ -170,6 +232,8 @@ Record create_post (opi : nat) (pod : name) (r : res) (plan : option (list (name
   cr_msgs : ms = [MCreateErr] \/ exists dm, plan = Some dm /\ length ms = plan_total dm;
   cr_created : forall p, In p (created_of ms) -> wi_op (fst p) = opi /\ snd p = r;
   (* never more instances on a node than planned for it *)
+  (* every message was sent, in order, and then the channel was closed *)
+  cr_out : out w' = MClose :: rev ms ++ out w;
   cr_bound : forall n, (created_on ms n <= match plan with Some dm => atotal dm n | None => 0 end)%nat;
 }.
 
@@ -191,6 +255,7 @@ Record cond_fn_post (r : res) (plan : option (list (name * nat))) (w w1 : world)
   cf_strict : strict_remove w1 = strict_remove w; cf_script : script w1 = script w;
   cf_plugs : plugs w1 = alloc_eff r (cs_alloc (fst (fst st1))) (plugs w);
   cf_rb : snd (fst st1) = [];
+  cf_out : out w1 = (match e with Some _ => [MCreateErr] | None => [] end) ++ out w;
   cf_prefix : match plan with Some dm => exists rest, dm = cs_alloc (fst (fst st1)) ++ rest | None => cs_alloc (fst (fst st1)) = [] end;
   cf_ok : e = None -> snd st1 = [] /\ exists dm, plan = Some dm /\ cs_alloc (fst (fst st1)) = dm /\ cs_plan (fst (fst st1)) = dm;
   cf_fail : e <> None -> snd st1 = [MCreateErr] /\ (cs_alloc (fst (fst st1)) = [] \/ k1 = None);
@@ -203,25 +268,25 @@ Proof.
   destruct (with_pod_locked_spec pod _ (fun e => (mkCS None [] [] [], Some e)) (cond_body opi r plan (mkCS None [] [] [])) w k)
     as [w1 [k1 [a [H1 [[e [-> [-> ->]]]|[ns [kb [k2 [Hb Hk]]]]]]]]]; rewrite H1.
   - (* the lock could not be taken *)
-    cbn [snd fst]. rewrite crunk_bind. destruct (send_core MCreateErr w None) as [w2 [k2 [H2 Hc2]]]. rewrite H2.
+    cbn [snd fst]. rewrite crunk_bind. destruct (send_core MCreateErr w None) as [w2 [H2 [Hc2 Ho2]]]. rewrite H2.
     unfold crunk. cbn [runk]. do 4 eexists. split; [reflexivity|].
-    destruct Hc2 as [? [? [? [? [? [? ?]]]]]]. pose proof (crunk_none_k _ _ _ _ _ _ H2).
-    constructor; cbn [fst snd st0 cs_alloc]; auto; try discriminate.
+    destruct Hc2 as [? [? [? [? [? [? ?]]]]]].
+    constructor; cbn [fst snd st0 cs_alloc app]; auto; try discriminate.
     destruct plan; [eexists; reflexivity|reflexivity].
   - destruct (cond_body_spec opi r plan ns w kb) as [w1' [k1' [s1 [e [Hb' Hp]]]]].
     { destruct plan as [dm|]; [|exact I]. destruct Hplan as [? [? ?]]. auto. }
     assert (E : (w1, k2, a) = (w1', k1', (s1, e))) by (etransitivity; [symmetry; exact Hb|exact Hb']).
     inversion E; subst w1' k1' a. clear E Hb.
-    destruct Hp as [cpp cpn cpw cpc cps cpsc cppl cppre cp_ok0 cp_fail0]. cbn [snd fst].
+    destruct Hp as [cpp cpn cpw cpc cps cpsc cppl cpout cppre cp_ok0 cp_fail0]. cbn [snd fst].
     destruct e as [err|].
-    + rewrite crunk_bind. destruct (send_core MCreateErr w1 k1) as [w2 [k3 [H2 Hc2]]]. rewrite H2.
+    + rewrite crunk_bind. destruct (send_core MCreateErr w1 k1) as [w2 [H2 [Hc2 Ho2]]]. rewrite H2.
       unfold crunk. cbn [runk]. do 4 eexists. split; [reflexivity|].
       destruct Hc2 as [? [? [? [? [? [? ?]]]]]].
-      constructor; cbn [fst snd st0]; try congruence.
+      constructor; cbn [fst snd st0 app]; try congruence.
       split; [reflexivity|]. destruct (cp_fail0 ltac:(discriminate)) as [Ha|Hk2]; [left; exact Ha|right].
-      rewrite (Hk Hk2) in H2. apply crunk_none_k in H2. exact H2.
+      apply Hk. exact Hk2.
     + unfold crunk. cbn [runk]. do 4 eexists. split; [reflexivity|].
-      constructor; cbn [fst snd st0]; try congruence.
+      constructor; cbn [fst snd st0 app]; try congruence.
       intros _. split; [reflexivity|]. apply cp_ok0. reflexivity.
 Qed.
 
@@ -237,9 +302,6 @@ Proof.
   intros p Hp. apply Nat.eqb_neq. intro E. apply Hn. rewrite <- E. apply H. exact Hp.
 Qed.
 
-Lemma crunk_ret : forall A (a : A) w k, crunk (Ret a) w k = (w, k, a).
-Proof. reflexivity. Qed.
-
 (* doCreateWorkloads, every world, every feasible plan (or refusal), every fault position *)
 Theorem create_spec : forall opi pod r plan w k, create_hyp w opi r plan ->
   exists w' k' ms, crunk (create opi pod r plan) w k = (w', k', ms) /\ create_post opi pod r plan w w' ms.
@@ -248,7 +310,7 @@ Proof.
   rewrite create_unfold. rewrite crunk_bind. unfold txn_s. rewrite crunk_bind.
   destruct (cond_fn_spec opi pod r plan w k Hhyp) as [w1 [k1 [st1 [e [H1 P1]]]]].
   unfold cst, oerr in *. rewrite H1.
-  destruct P1 as [cfp cfn cfw cfc cfs cfsc cfpl cfrb cfpre cfok cffail].
+  destruct P1 as [cfp cfn cfw cfc cfs cfsc cfpl cfrb cfout cfpre cfok cffail].
   cbn [snd fst].
   destruct e as [err|].
   - (* the condition step failed: roll back whatever was allocated *)
@@ -257,12 +319,12 @@ Proof.
     set (rb := map (fun a => (fst a, seq_nat 0 (snd a))) (cs_alloc (fst (fst st1)))).
     assert (Hrb : exists w2 k2, crunk (rollback_prog r rb) w1 k1 = (w2, k2, tt) /\
               pods w2 = pods w /\ nodes w2 = nodes w /\ wls w2 = wls w /\ conts w2 = conts w /\
-              strict_remove w2 = strict_remove w /\ script w2 = script w /\ plugs w2 = plugs w).
+              strict_remove w2 = strict_remove w /\ script w2 = script w /\ plugs w2 = plugs w /\ out w2 = out w1).
     { destruct Hor as [Ha|Hk].
       - unfold rb. rewrite Ha. cbn [map]. unfold rollback_prog. cbn [for_all]. unfold crunk. cbn [runk].
         exists w1, k1. split; [reflexivity|]. rewrite cfpl, Ha. unfold alloc_eff. cbn [fold_left]. repeat split; auto.
       - subst k1.
-        destruct (rollback_spec r rb w1) as [w2 [H2 [? [? [? [? [? [? [? [? [? [? Hpl]]]]]]]]]]]].
+        destruct (rollback_spec r rb w1) as [w2 [H2 [? [? [? [? [? [? [? [? [? [Hout2 Hpl]]]]]]]]]]]].
         { intros g Hg. unfold rb in Hg. apply in_map_iff in Hg. destruct Hg as [a [<- Ha]]. cbn [fst].
           destruct plan as [dm|]; [|rewrite cfpre in Ha; destruct Ha].
           destruct cfpre as [rest Hdm]. destruct Hplan as [Hnd [Hfe Hnodes]].
@@ -277,32 +339,24 @@ Proof.
         replace (p_node (add_use (scale (atotal (cs_alloc (fst (fst st1))) (p_node x)) r) x)) with (p_node x) by reflexivity.
         rewrite <- (Nat.add_0_r (atotal (cs_alloc (fst (fst st1))) (p_node x))) at 2.
         rewrite sub_add_net. apply add_use_0. }
-    destruct Hrb as [w2 [k2 [H2 [Hp2 [Hn2 [Hw2 [Hc2 [Hs2 [Hsc2 Hpl2]]]]]]]]].
+    destruct Hrb as [w2 [k2 [H2 [Hp2 [Hn2 [Hw2 [Hc2 [Hs2 [Hsc2 [Hpl2 Ho2]]]]]]]]]].
     rewrite H2. unfold rok, crunk. cbn [runk fst snd].
-    destruct (defers_neutral opi (fst (fst st1)) (snd st1) w2 k2) as [w3 [k3 [ms [H3 Hc3]]]].
-    pose proof H3 as H3'. unfold crunk in H3. rewrite H3. exists w3, k3, ms. split; [reflexivity|].
-    assert (Hmsv : ms = snd st1).
-    { unfold defers in H3'. clear - H3'. rename H3' into H3.
-      (* the clean-up returns the message list it was given *)
-      revert H3. generalize (for_all (cs_plan (fst (fst st1))) (fun g => ign (doc (SDeleteProcessing (fst g) opi)))) as p1.
-      intros p1. rewrite crunk_bind. destruct (crunk p1 w2 k2) as [[wa ka] []].
-      rewrite crunk_bind. destruct (crunk (commit_processing opi (cs_ptokens (fst (fst st1)))) wa ka) as [[wb kb] []].
-      rewrite crunk_bind. destruct (crunk _ wb kb) as [[wc kc] []].
-      rewrite crunk_bind. destruct (crunk (send MClose) wc kc) as [[wd kd] []].
-      unfold crunk. cbn [runk]. intros E. inversion E. reflexivity. }
-    rewrite Hmsv, Hms in *.
+    destruct (defers_spec opi (fst (fst st1)) (snd st1) w2 k2) as [w3 [k3 [H3 [Hc3 Ho3]]]].
+    unfold crunk in H3. rewrite H3. exists w3, k3, (snd st1). split; [reflexivity|].
+    rewrite Hms in *.
     destruct Hc3 as [? [? [? [? [? [? ?]]]]]].
     constructor; cbn [created_of flat_map map app]; try rewrite app_nil_r; try congruence.
     + transitivity (plugs w); [congruence|]. rewrite <- (map_id (plugs w)) at 1. apply map_ext. intros x. symmetry. apply add_use_0.
     + left; reflexivity.
     + intros p [].
+    + rewrite Ho3, Ho2, cfout. reflexivity.
     + intros n. cbn. lia.
   - (* the condition step succeeded: deploy *)
     destruct (cfok eq_refl) as [Hms0 [dm [Hplan_eq [Halloc Hcsplan]]]]. subst plan.
     destruct Hplan as [Hnd [Hfe Hnodes]].
     rewrite crunk_bind. unfold then_fn. rewrite crunk_bind. rewrite Hcsplan.
     destruct (deploy_all_ms opi pod r dm w1 k1 Hnd (fresh_core w w1 opi cfw cfc Hfresh (map fst dm)))
-      as [w2 [k2 [rb [ms [H2 [Hlen [Hkn [Hcreated [Hcnt [Hrb0 [Hrbin Hcore2]]]]]]]]]]].
+      as [w2 [k2 [rb [ms [H2 [Hlen [Hkn [Hcreated [Hcnt [Hrb0 [Hrbin [Hout2 Hcore2]]]]]]]]]]]].
     { intros n Hn. unfold find_node. rewrite cfn. apply Hnodes. exact Hn. }
     rewrite H2. rewrite Hms0. cbn [app fst snd].
     destruct Hcore2 as [Hp2 [Hn2 [Hpl2 [Hs2 [Hsc2 [Hw2 Hc2]]]]]].
@@ -317,44 +371,30 @@ Proof.
     destruct rb as [|g rbt].
     + (* every instance was deployed *)
       unfold crunk. cbn [runk fst snd].
-      destruct (defers_neutral opi (fst (fst st1)) ms w2 k2) as [w3 [k3 [ms' [H3 Hc3]]]].
-      pose proof H3 as H3'. unfold crunk in H3. rewrite H3. exists w3, k3, ms'. split; [reflexivity|].
-      assert (Hmsv : ms' = ms).
-      { unfold defers in H3'. clear - H3'. rename H3' into H3. revert H3.
-        generalize (for_all (cs_plan (fst (fst st1))) (fun g => ign (doc (SDeleteProcessing (fst g) opi)))) as p1.
-        intros p1. rewrite crunk_bind. destruct (crunk p1 w2 k2) as [[wa ka] []].
-        rewrite crunk_bind. destruct (crunk (commit_processing opi (cs_ptokens (fst (fst st1)))) wa ka) as [[wb kb] []].
-        rewrite crunk_bind. destruct (crunk _ wb kb) as [[wc kc] []].
-        rewrite crunk_bind. destruct (crunk (send MClose) wc kc) as [[wd kd] []].
-        unfold crunk. cbn [runk]. intros E. inversion E. reflexivity. }
-      subst ms'. destruct Hc3 as [Hp3 [Hn3 [Hpl3 [Hs3 [Hsc3 [Hw3 Hcc3]]]]]].
+      destruct (defers_spec opi (fst (fst st1)) ms w2 k2) as [w3 [k3 [H3 [Hc3 Ho3]]]].
+      unfold crunk in H3. rewrite H3. exists w3, k3, ms. split; [reflexivity|].
+      destruct Hc3 as [Hp3 [Hn3 [Hpl3 [Hs3 [Hsc3 [Hw3 Hcc3]]]]]].
       constructor; [congruence|congruence|congruence|congruence
                    |rewrite Hw3, Hw2, cfw; reflexivity|rewrite Hcc3, Hc2, cfc; reflexivity| |right; exists dm; auto|exact Hcr
+                   |rewrite Ho3, Hout2, cfout; reflexivity
                    |intros n; rewrite Hnet; lia].
       rewrite Hpl3, Hpl2, cfpl, Halloc, alloc_eff_map. apply map_ext. intros x. rewrite Hnet. reflexivity.
     + (* some instance failed: the single fault has fired, the rollback runs undisturbed *)
       pose proof (Hkn ltac:(discriminate)) as Hk2. subst k2.
       rewrite crunk_ret. cbn [snd fst]. rewrite crunk_bind. unfold rb_fn. cbn [snd fst]. rewrite crunk_bind.
-      destruct (rollback_spec r (g :: rbt) w2) as [w3 [H3 [? [? [? [? [? [? [? [? [? [? Hpl3]]]]]]]]]]]].
+      destruct (rollback_spec r (g :: rbt) w2) as [w3 [H3 [? [? [? [? [? [? [? [? [? [Hout3 Hpl3]]]]]]]]]]]].
       { intros g' Hg'. pose proof (Hrbin g' Hg') as Hin. split.
         - unfold find_node. rewrite Hn2, cfn. apply Hnodes. exact Hin.
         - apply in_map_iff in Hin. destruct Hin as [[n cnt] [Hn' Hin]]. cbn [fst] in Hn'.
           destruct (Hfe n cnt Hin) as [p [Hp _]]. unfold find_plug in *. rewrite <- Hn'.
           rewrite Hpl2, cfpl, alloc_eff_map, find_plug_map by reflexivity. rewrite Hp. discriminate. }
       rewrite H3. unfold rok, crunk. cbn [runk fst snd].
-      destruct (defers_neutral opi (fst (fst st1)) ms w3 None) as [w4 [k4 [ms' [HD Hc4]]]].
-      pose proof HD as H4'. unfold crunk in HD. rewrite HD. exists w4, k4, ms'. split; [reflexivity|].
-      assert (Hmsv : ms' = ms).
-      { unfold defers in H4'. clear - H4'. rename H4' into H4. revert H4.
-        generalize (for_all (cs_plan (fst (fst st1))) (fun g => ign (doc (SDeleteProcessing (fst g) opi)))) as p1.
-        intros p1. rewrite crunk_bind. destruct (crunk p1 w3 None) as [[wa ka] []].
-        rewrite crunk_bind. destruct (crunk (commit_processing opi (cs_ptokens (fst (fst st1)))) wa ka) as [[wb kb] []].
-        rewrite crunk_bind. destruct (crunk _ wb kb) as [[wc kc] []].
-        rewrite crunk_bind. destruct (crunk (send MClose) wc kc) as [[wd kd] []].
-        unfold crunk. cbn [runk]. intros E. inversion E. reflexivity. }
-      subst ms'. destruct Hc4 as [Hp4 [Hn4 [Hpl4 [Hs4 [Hsc4 [Hw4 Hcc4]]]]]].
+      destruct (defers_spec opi (fst (fst st1)) ms w3 None) as [w4 [k4 [HD [Hc4 Ho4]]]].
+      unfold crunk in HD. rewrite HD. exists w4, k4, ms. split; [reflexivity|].
+      destruct Hc4 as [Hp4 [Hn4 [Hpl4 [Hs4 [Hsc4 [Hw4 Hcc4]]]]]].
       constructor; [congruence|congruence|congruence|congruence
                    |rewrite Hw4; congruence|rewrite Hcc4; congruence| |right; exists dm; auto|exact Hcr
+                   |rewrite Ho4, Hout3, Hout2, cfout; reflexivity
                    |intros n; rewrite Hnet; lia].
       rewrite Hpl4, Hpl3, Hpl2, cfpl, Halloc, rollback_eff_map, alloc_eff_map, map_map. apply map_ext. intros x.
       replace (p_node (add_use (scale (atotal dm (p_node x)) r) x)) with (p_node x) by reflexivity.
@@ -386,7 +426,7 @@ Theorem create_keeps_usage : forall opi pod r plan w k, create_hyp w opi r plan 
 Proof.
   intros opi pod r plan w k Hhyp Hok.
   destruct (create_spec opi pod r plan w k Hhyp) as [w' [k' [ms [H P]]]]. rewrite H. cbn [fst].
-  destruct P as [_ _ _ _ Hw _ Hpl _ Hcr _].
+  destruct P as [_ _ _ _ Hw _ Hpl _ Hcr _ _].
   intros p' Hp'. rewrite Hpl in Hp'. apply in_map_iff in Hp'. destruct Hp' as [x [<- Hx]].
   cbn [add_use p_use p_node]. rewrite Hw, sum_on_app. rewrite (Hok x Hx).
   rewrite (sum_on_created pod r); [reflexivity|]. intros p Hp. apply (Hcr p Hp).
